@@ -68,3 +68,25 @@ func VerifC06_ReadAny() {
 		vrt.Reach("err")
 	}
 }
+
+func init() { vrt.Register("VerifC06_SkipDepth", VerifC06_SkipDepth) }
+
+// VerifC06_SkipDepth: the depth limit of the Go skipper, exercised with a small limit D on arbitrary bytes:
+// whatever SkipGo(T, D) accepts and the reference decoder considers well-formed nests no deeper than D
+// (through struct fields, list elements, map keys and map values alike).
+func VerifC06_SkipDepth() {
+	b := vrt.Bytes(vrt.Param("N"))
+	d := vrt.Param("D")
+	t := byte(vrt.Param("T"))
+	p := &BinaryProtocol{Buf: b}
+	err := p.SkipGo(Type(t), d)
+	if err != nil {
+		vrt.Reach("err")
+		return
+	}
+	vrt.Reach("ok")
+	vrt.Assert(p.Read >= 0 && p.Read <= len(b), "C06.thrift.skipdepth.cursor")
+	if vrt.TSkip(b, 0, t, 16) == p.Read {
+		vrt.Assert(vrt.TSkip(b, 0, t, d) == p.Read, "C06.thrift.skipdepth.limit-enforced")
+	}
+}
